@@ -170,12 +170,15 @@ CLAIMED.update({
           'every required knowledge model and decision service to its function, every required decision\'s variable to that decision\'s own value over the same input, an input entry named like one of the latter replacing it '
           '(DMN TCK 0085), and nothing else (so input entries outside the requirement closure do not reach the logic); the value is coerced to the output variable\'s type and bound to the output variable\'s name in the '
           'caller\'s result context, which is otherwise unchanged; and on the real bodies of FeelContext::set_entry / zip / overwrite that they bind / merge (other wins) / replace-without-adding. '
+          'The closures of build_evaluator (a knowledge model binds each required knowledge model or decision SERVICE AS A FUNCTION, then its own function) and of build_decision_service_evaluator (one input for encapsulated and output '
+          'decisions: the input decisions\' variables read from the supplied context, then the input data; one output value or a context of output values; coerced) and the entry points by name (evaluate_invocable, evaluate_decision, '
+          'evaluate_decision_service, evaluate_business_knowledge_model) are under contract in the same way. '
           'The registries are opaque objects that meet the contract the closures are proved to meet (induction along the acyclic graph, assumed). '
           'BOUNDED requirement-graphs-differential runs generated graphs (diamonds, knowledge model chains, services as functions, boxed contexts and invocations) end to end against a reference evaluation.',
   'design_ref': 'DESIGN.md section 5 (C04)',
   'note': 'Trusted: Verus/Z3, vstd BTreeMap / iterator specs, A-name; A-graph (registry evaluate methods meet the closure contracts), R8g (RwLock guards dropped, lock poisoning not modelled), A-eval (the logic\'s value is a function '
           'of the entries of the context it runs over), A-ctx (Default / clone / into Scope / coerced as named stubs). Not decided: the builder part outside the closure (which references are collected, which logic is built), '
-          'knowledge model and decision service closures, boxed expression evaluators beyond their scope discipline (unit purity), evaluate_invocable dispatch, name clashes between requirements.',
+          'the service-as-function body closure, boxed expression evaluators beyond invocation / function definition (unit purity), name clashes between requirements.',
   'technique': 'contract-based deductive verification: Verus requires/ensures/loop invariants on the decision evaluator closure lifted mechanically from /repo and on FeelContext::set_entry / zip / overwrite; '
                'bounded differential stand-in (labelled bounded) for whole requirement graphs',
  },
